@@ -22,7 +22,10 @@
 //	(8) all interleavings of two concurrent CompileModule calls (same key on two runtimes / on one
 //	    runtime; two different keys) switching at every file-cache operation (adders.go),
 //	(9) environment events (staging file / entry directory removed or replaced) between any two
-//	    steps of the add (events.go).
+//	    steps of the add (events.go),
+//	(10) the size of the entry: boundary sizes 2^k-1, 2^k, 2^k+1 up to 32 MiB (thorough 128 MiB) x
+//	    content-reader shape x previous state of the final name through the real filecache Add/Get,
+//	    and complete valid entries of those sizes loaded by a fresh runtime (size.go).
 //
 // After every state a recovery runs in a supervised child: fresh cache object + fresh runtime on
 // that directory, CompileModule, instantiate, call every export, compare with the uncached
@@ -643,6 +646,8 @@ type Case struct {
 	Event  string `json:"event,omitempty"` // event: environment event before step K
 	K2     int    `json:"k2,omitempty"`    // event: 1 + position of the second event (thorough)
 	Event2 string `json:"event2,omitempty"`
+	Shape  string `json:"shape,omitempty"` // size: how the content reader hands out the bytes
+	Prior  string `json:"prior,omitempty"` // size: what the final name holds before the add
 }
 
 type caseResult struct {
@@ -818,6 +823,9 @@ func genCases(p *Plan) []Case {
 	cs = append(cs, dieCases(p)...)
 	// (9) environment events between two steps of the add
 	cs = append(cs, eventCases(p)...)
+	// (10) the size of the entry as a dimension (boundary sizes up to tens of MiB); first in the plan:
+	// the large cases must not form the tail of the run
+	cs = append(sizeCases(p), cs...)
 	return cs
 }
 
@@ -973,6 +981,8 @@ func runCase(p *Plan, c Case) caseResult {
 		return runAdders(p, c)
 	case "event":
 		return runEvent(mi, c)
+	case "size":
+		return runSize(mi, c)
 	}
 	fw.Fatalf("unknown case kind %q", c.Kind)
 	return caseResult{}
@@ -1273,7 +1283,7 @@ func main() {
 				detSums[c.Mod] = append(detSums[c.Mod], cr.Sum)
 			}
 			if c.Kind != "det" && c.Kind != "control" {
-				distinct[fmt.Sprintf("%d/%s/%s/%d/%s/%d/%s/%s/%s/%s/%v", c.Mod, c.Kind, c.Flow, c.K, c.Torn, c.L, c.Ver, c.Body, c.Errno, c.Conf, c.Shard)+fmt.Sprint(c.Mods, c.Event, c.K2, c.Event2)] = true
+				distinct[fmt.Sprintf("%d/%s/%s/%d/%s/%d/%s/%s/%s/%s/%v", c.Mod, c.Kind, c.Flow, c.K, c.Torn, c.L, c.Ver, c.Body, c.Errno, c.Conf, c.Shard)+fmt.Sprint(c.Mods, c.Event, c.K2, c.Event2, c.Shape, c.Prior)] = true
 			}
 			if len(cr.Viols) > 0 {
 				for _, v := range cr.Viols {
@@ -1322,9 +1332,10 @@ func main() {
 	}
 	run.Finish(fw.Coverage{
 		Evaluations: evals + inproc, DistinctNontriv: int64(len(distinct)),
-		Rule:    "one evaluation = one recovery (fresh cache object + fresh runtime + CompileModule + all exports called) on one materialised directory state, or one complete interleaving for the reader configurations; distinct non-trivial = distinct (module, crash point, torn file, torn length | truncation length | zero-tail cut | version variant x body | fault step x errno | interleaving shard) tuples, controls and determinism repetitions excluded",
+		Rule:    "one evaluation = one recovery (fresh cache object + fresh runtime + CompileModule + all exports called) on one materialised directory state, or one complete interleaving for the reader configurations; distinct non-trivial = distinct (module, crash point, torn file, torn length | truncation length | zero-tail cut | version variant x body | fault step x errno | interleaving shard | entry size x reader shape x prior state) tuples, controls and determinism repetitions excluded",
 		Samples: samples.List(), Exhaustive: true, Outcomes: outcomes.Map(),
 		Bounds: map[string]any{"modules": sizes, "evaluations_by_kind": bk,
+			"entry_sizes":                "0 and 2^k-1, 2^k, 2^k+1 for k=0..25 (thorough ..27 and 3*2^k+-1, k=9..24) x reader shape {writerto, plain, dribble, eof-with-data} x prior state of the final name {absent, shorter, longer} through the real filecache Add/Get; padded complete entries of two modules at 2^k+-1, k in {12,16,20,22..25}, loaded by a fresh runtime; real modules with 3400/13500/56000 (thorough 110000) functions through CompileModule twice",
 			"torn_lengths":               "all lengths when the un-synced span is <= 4096 bytes, else fixed header, field boundaries, trailer and a 64-byte grid",
 			"truncation_lengths":         "all lengths when the entry is <= 8192 bytes, else all of header + offset table + trailer (256 B) and a 64-byte grid in code/source map",
 			"version_variants":           []string{"shorter", "longer", "same-length-different", "prefix-of-current", "current-as-prefix", "empty", "len255-claimed", "len255-real"},
@@ -1385,6 +1396,11 @@ func caseClass(c Case) string {
 		return c.Flow + "-" + c.Errno
 	case "event":
 		return c.Flow + "-" + c.Event
+	case "size":
+		if c.Flow == "engine" {
+			return fmt.Sprintf("engine-%d-functions", c.K)
+		}
+		return fmt.Sprintf("%s-%s:%s-prior-%s", c.Flow, sizeBucket(c.L), c.Shape, c.Prior)
 	case "trunc":
 		return "truncated-entry"
 	case "hole":
